@@ -567,6 +567,8 @@ pub fn run(tier: Tier) -> i32 {
         ("shape-with-child/line", r##"<svg><line xy1="0 60" xy2="10 60" text-loc="c">hello<animate attributeName="x2" to="5"/></line></svg>"##, "hello", Some((5., 60.)), &[], &[]),
         ("reuse-evaluated-once/group-parameter", r##"<svg><var x="9"/><specs><g id="grp" lbl="dflt"><rect wh="20" text="$lbl"/></g></specs><reuse href="#grp" lbl="cost \$x"/></svg>"##, "cost $x", Some((10., 10.)), &[], &[]),
         ("reuse-evaluated-once/template-with-title", r##"<svg><var m="hello"/><specs><rect id="t" wh="20" text="\$m"><title>x</title></rect></specs><reuse href="#t"/></svg>"##, "$m", Some((10., 10.)), &[], &[]),
+        ("reuse-template-content/shape", r##"<svg><specs><rect id="t" wh="20">$m and {{1+2}} \$m</rect></specs><reuse href="#t" m="hello"/></svg>"##, "hello and 3 $m", Some((10., 10.)), &[], &[]),
+        ("reuse-template-content/text", r##"<svg><specs><text id="t" xy="3 4">$m</text></specs><reuse href="#t" m="hello"/></svg>"##, "hello", Some((3., 4.)), &[], &[]),
         ("text-style/keeps-style", r##"<svg><text xy="1 2" style="fill:red" text-style="font-weight:bold" text="hi"/></svg>"##, "hi", Some((1., 2.)), &[], &[("style", "fill:red"), ("style", "font-weight:bold")]),
     ];
     let st = run_space(scenarios.len(), |i| {
